@@ -83,6 +83,9 @@ func blockedOnFlock(pid int) bool {
 func main() {
 	r := lib.Start("C31", "model_checking")
 	plz := filepath.Join(lib.VerifRoot, ".work", "bin", "plz")
+	if p := os.Getenv("VERIF_PLZ"); p != "" {
+		plz = p // the driver says which binary it built from the repository under test
+	}
 	plzVos := os.Getenv("VERIF_PLZ_VOS")
 	if plzVos == "" {
 		lib.Fatal("VERIF_PLZ_VOS not set")
@@ -167,7 +170,7 @@ func main() {
 					os.MkdirAll(pd, 0o755)
 					a := start(plzVos, dir, args, []string{fmt.Sprintf("VOS_PLAN=pause@%d:%s", k, pd)})
 					// wait until A reaches its pause point (or finishes: fewer ops this time)
-					deadline := time.Now().Add(60 * time.Second)
+					deadline := time.Now().Add(120 * time.Second)
 					for !a.finished() && time.Now().Before(deadline) {
 						if _, err := os.Stat(filepath.Join(pd, "reached")); err == nil {
 							break
@@ -193,7 +196,7 @@ func main() {
 					for _, p := range []*proc{a, b} {
 						select {
 						case <-p.done:
-						case <-time.After(90 * time.Second):
+						case <-time.After(240 * time.Second):
 							hung = true
 							syscall.Kill(-p.cmd.Process.Pid, syscall.SIGKILL)
 							<-p.done
@@ -208,7 +211,7 @@ func main() {
 					}
 					switch {
 					case hung:
-						r.Violate(fmt.Sprintf("%s:hang:pause-before-%s", sc.fam.Name(), opKind), wit, "the two invocations did not both finish within 90s\nA:\n"+a.out.String()+"\nB:\n"+b.out.String())
+						r.Violate(fmt.Sprintf("%s:hang:pause-before-%s", sc.fam.Name(), opKind), wit, "the two invocations did not both finish within 240s\nA:\n"+a.out.String()+"\nB:\n"+b.out.String())
 					case a.exit != 0 || b.exit != 0:
 						r.Violate(fmt.Sprintf("%s:invocation-failed:pause-before-%s", sc.fam.Name(), opKind), wit, fmt.Sprintf("exit statuses A=%d B=%d\nA:\n%s\nB:\n%s", a.exit, b.exit, a.out.String(), b.out.String()))
 					default:
